@@ -41,8 +41,10 @@ def cold(scr):
     return ["op", "subscribe_on", [], ["from_iter"] + scr]
 
 
-def cold_case(opn, scripts, take, sched, again=None):
-    pipe = ["op", opn, [], cold(scripts[0])] + [cold(s) for s in scripts[1:]]
+def cold_case(opn, scripts, take, sched, again=None, sync_first=False):
+    # sync_first: the first input is a plain synchronous source (it has completed before the next input is even subscribed), the
+    # others emit from their own threads
+    pipe = ["op", opn, [], (["from_iter"] + scripts[0]) if sync_first else cold(scripts[0])] + [cold(s) for s in scripts[1:]]
     if take is not None:
         pipe = ["op", "take", [take], pipe]
     # again: the SAME Observable value is subscribed a second time - "after" the first subscription has ended or while it is "running"
@@ -99,6 +101,8 @@ def generate(rng, tier, seed):
         base = seed * 1000 + rng.randrange(1000)
         cases.append(hot_case("amb", scripts, None, ["random", base, 60 if thorough else 25]))
         cases.append(hot_case("amb", scripts, None, ["pct", 3, base, 30 if thorough else 10]))
+        # a synchronous input next to threaded ones: it has come and gone before the others are subscribed
+        cases.append(cold_case(rng.choice(["merge", "merge", "concat"]), scripts_for(rng, rng.choice([2, 3]), 3), None, ["random", base + 5, 20 if thorough else 8], sync_first=True))
         # amb whose inputs ALL complete without emitting (the first completion wins: exactly one complete, no item)
         cases.append(hot_case("amb", [[] for _ in range(rng.choice([2, 3]))], None, ["random", base, 30 if thorough else 12]))
         # amb whose race is decided by an item of one input; later ANOTHER input fails: the loser's error is not let through, the
